@@ -603,7 +603,7 @@ def run(res, tier):
            message='RemoveParameter: paramName is used at line %s after _parameters.RemoveName(paramName) (line %s); when the caller passes the field-name String that lives inside _parameters '
                    '(wildcard REMOVEPARAMETERS) the removal clears it, every later comparison fails and e.g. the reflect-to-self flag is never switched off' % ((bad[1].get('l'), bad[0].get('l')) if bad else ('?', '?')))
     from . import sm_state
-    fsm = common.load_units(res, ['regex/StringMatcher.cpp'], fn_regex=r'^muscle::(StringMatcher::|RemoveEscapeChars$|CanWildcardStringMatchMultipleValues$)')
+    fsm = common.load_units(res, ['regex/StringMatcher.cpp'], fn_regex=r'^muscle::(StringMatcher::|[A-Za-z0-9_]+$)')      # namespace-level functions too: the scanners and whatever file-static helpers they were split into
     res.units = res.units + ['reflector/StorageReflectSession.cpp', 'reflector/DumbReflectSession.cpp', 'reflector/AbstractReflectSession.cpp']
     # the direct-lookup fast path turns an escaped literal clause into a node name with RemoveEscapeChars(): its escape flag must have the parity the matcher's own scanners have
     # (the rule is C15's ESCAPE-PARITY, judged here for the one function routing depends on)
@@ -630,10 +630,17 @@ def only_commas_rule(res, fsm):
     fs = [g for g in fsm.funcs.values() if g.full and g.q == 'muscle::CanWildcardStringMatchMultipleValues' and g.file.endswith('.cpp')]      # the scanner, not the String overload that forwards to it
     if not fs:
         raise AnalysisBroken('ONLY-COMMAS: CanWildcardStringMatchMultipleValues has no analysed body')
-    f = fs[0]
+    judged = 0
+    for f in IP.scope(fsm, fs[0], r'^muscle::\w+$'):          # the function and the file-static helpers its scan may have been moved into
+        judged += _only_commas_in(res, f)
+    if judged < 1:
+        raise AnalysisBroken('ONLY-COMMAS: no function in the scope of CanWildcardStringMatchMultipleValues raises a bool* out-parameter')
+
+
+def _only_commas_in(res, f):
     outp = [p_['d'] for p_ in f.params if 'bool *' in (f.ptype(p_) or '')]
     if not outp:
-        raise AnalysisBroken('ONLY-COMMAS: no bool* out-parameter')
+        return 0
     d = outp[0]
     raises, lowers = [], []
     for n in f.walk():
@@ -643,13 +650,11 @@ def only_commas_rule(res, fsm):
                 r = A.strip_casts(n['ch'][1])
                 (lowers if (r['k'] == 'CXXBoolLiteralExpr' and not r.get('v')) else raises).append(n)
     if not raises:
-        raise AnalysisBroken('ONLY-COMMAS: the out-parameter is never given a non-false value')
+        return 0
     in_loop = set()
     for (h, body) in C.natural_loops(f):
         in_loop |= set(body)
     early = [r for r in f.walk() if r['k'] == 'ReturnStmt' and any(a_['k'] in ('WhileStmt', 'ForStmt', 'DoStmt') for a_ in r.ancestors())]
-    if not early:
-        raise AnalysisBroken('ONLY-COMMAS: no return inside the scan loop')
     lower_blocks = set(p_[0] for p_ in (P.pos_of(f, n) for n in lowers) if p_)
     def feasible(asg):
         # the flag is raised through the pointer, so on every path that continues from there the pointer is not NULL
@@ -678,3 +683,4 @@ def only_commas_rule(res, fsm):
                message='CanWildcardStringMatchMultipleValues reports "commas are the only special characters" (line %s) and can still take the early return at line %s, where a wildcard was found '
                        'further on: for a clause like `a,b*` the traversal then looks up children literally named `a` and `b*` instead of matching, and nodes the pattern selects never get the '
                        'Message' % (w.get('l'), bad[0].get('l') if bad else '?'))
+    return 1
